@@ -36,6 +36,9 @@ CHECKS = {
  "C14": ("runtime history monitor: AddVersion/read histories on a live LocalClient replayed against a map-based reference model, every read compared at read time",
          "Exploration over generated histories (new keys, re-added keys with changed tags/flags/requirements, deleted-flagged adds, moving latest tag, reads of present/absent/merely-required packages).",
          "Model order = library comparison + stated npm rules; at most one latest holder per package.", "§6 C14"),
+ "C16": ("runtime differential monitor: generated PEP 508 requirement strings parsed by the library and by pip's packaging; generated marker expressions observed through the PyPI resolver (edge present or not) against packaging's Marker.evaluate in the library's own target environment",
+         "Exploration: name/extras/specifier/marker fields compared for every generated requirement packaging accepts; every marker (and/or/parentheses to depth 4 over all variables and operators, both operand orders, a sweep of single atoms) is placed on a dependency of a three-package universe and the resolver's decision compared with packaging's; the environment is read from the library by probing and cross-checked with env.gen.go.",
+         "pip._vendor.packaging 21.3 is the oracle; atoms whose meaning differs between packaging generations are excluded and listed in evidence; one recorded divergence ('!=' with a post-release literal on the left, root cause in util/semver) is identified by a rewrite-and-re-resolve predicate.", "§6 C16"),
 }
 NOT_YET = {}
 
